@@ -39,8 +39,8 @@ MIN_NONTRIVIAL = 100
 MIN_OUTCOMES = 5
 CASE_TIMEOUT = 600
 
-SOLVERS = ["Moreau", "DualStormerVerlet", "BackwardEuler", "Rattle"]
-VELOCITY_LEVEL = {"Moreau", "DualStormerVerlet", "DualStormerVerlet_LU"}
+SOLVERS = ["Moreau", "DualStormerVerlet", "DualStormerVerlet_plain", "BackwardEuler", "Rattle"]  # _plain: accelerated=False, _LU: linear_solver="LU"
+VELOCITY_LEVEL = {"Moreau", "DualStormerVerlet", "DualStormerVerlet_plain", "DualStormerVerlet_LU"}
 E_N = [0.0, 0.5, 1.0]
 MU = [0.0, 0.3, 1.0]
 DT = [1e-3, 5e-3, 2e-2]
@@ -111,6 +111,7 @@ _NONCONV = ("not converged", "did not converge", "is not converged")
 
 
 def check(case):
+    import time
     from vp.core.quiet import quiet
     from vp.scen.scenes import SCENES, build, make_solver, solver_options
 
@@ -119,6 +120,7 @@ def check(case):
     vel_level = solver in VELOCITY_LEVEL
     letters = {"scene": scene, "solver": solver, "e_N": e_N, "mu": mu, "dt": dt}
 
+    cpu0 = time.process_time()
     system = build(scene, e_N, mu)
     t1 = system.t0 + N * dt - 0.5 * dt
     try:
@@ -127,7 +129,7 @@ def check(case):
     except (RuntimeError, ValueError) as e:
         if any(s in str(e) for s in _NONCONV):
             return {"fails": [], "nontrivial": False, "evals": 0, "excluded": "solver reported non-convergence", "outcome": "aborted:nonconvergence",
-                    "stats": {"n_aborted_executions": 1}}
+                    "stats": {"n_aborted_executions": 1, "cpu_s": time.process_time() - cpu0}}
         raise
     t, q, u = np.asarray(sol.t, float), np.asarray(sol.q, float), np.asarray(sol.u, float)
     P_N = np.asarray(sol.P_N, float)
@@ -262,7 +264,7 @@ def check(case):
                             if err > TOL_DIR_ABS + TOL_DIR_REL * mu * P:
                                 fail("sliding friction percussion is not -mu P_N xi_F/|xi_F|", k,
                                      f"P_F = {PF.tolist()}, -mu P_N xi_F/|xi_F| = {want.tolist()}, |xi_F| = {slip:.3e}, cos = {float(PF @ want) / max(nPF * mu * P, 1e-300):.6f}",
-                                     contact=cname, err=err, rel_err=rel, slip=slip, P_N=P, norm_P_F=nPF)
+                                     contact=cname, err=err, rel_err=rel, slip=slip, P_N=P, norm_P_F=nPF, cos=float(PF @ want) / max(nPF * mu * P, 1e-300))
                         elif slip < 1e-7:
                             cnt["n_stick"] += 1
                             outcomes.add("stick")
@@ -275,7 +277,7 @@ def check(case):
                 st["max_ke_increase_rel"] = max(st["max_ke_increase_rel"], inc)
                 if ke - ke_prev > TOL_KE_ABS + TOL_KE_REL * ke_prev:
                     fail("kinetic energy increases in a force-free frictionless scene", k, f"T_k - T_k-1 = {ke - ke_prev:.3e} (T_k-1 = {ke_prev:.6e}), P_N = {P_N[k].tolist()}",
-                         dT=ke - ke_prev, T_prev=ke_prev)
+                         dT=ke - ke_prev, T_prev=ke_prev, rel_increase=inc, rel_increase_over_dt=inc / dt)
                 ke_prev = ke
             # walk the twin like the solver walked the original
             twin.step_callback(tk, qk.copy(), uk.copy())
@@ -300,8 +302,11 @@ def check(case):
         seen.setdefault(f["site"], f)
     for s, f in seen.items():
         f["data"]["steps_failing"] = num[s]
-    stats = dict(st)
+    fam = solver.split("_")[0]
+    stats = {f"{k}__{fam}": v for k, v in st.items() if v > 0}  # residuals per solver family (noise differs by scheme)
     stats.update(cnt)
+    stats["cpu_s"] = time.process_time() - cpu0
+    stats["max_case_cpu_s"] = stats["cpu_s"]
     stats["n_truncated_executions"] = int(truncated)
     res = {"fails": list(seen.values()), "nontrivial": cnt["n_percussion"] > 0, "evals": evals, "states": nrows - 1, "transitions": nrows - 1,
            "outcome": sorted(outcomes), "stats": stats}
